@@ -342,11 +342,12 @@ class BaseGroupBy(ABC):
         """
         if isinstance(func, str):
             if hasattr(self, func):
-                return getattr(self, func)()
+                method = getattr(self, func)
+                return method() if mask is None else method(mask=mask)
             else:
-                result = self._grouper.agg(self._values_to_group, func)
+                result = self._grouper.agg(self._values_to_group, func, mask=mask)
         else:
-            result = self._grouper.apply(self._values_to_group, func)
+            result = self._grouper.apply(self._values_to_group, func, mask=mask)
 
         return result
 
